@@ -527,7 +527,9 @@ func IterateEntries(header HeaderV3, fetch func(uint64, uint64) ([]byte, error),
 			if entry.RunLength > 0 {
 				operation(entry)
 			} else {
-				CollectEntries(header.LeafDirectoryOffset+entry.Offset, uint64(entry.Length))
+				if err := CollectEntries(header.LeafDirectoryOffset+entry.Offset, uint64(entry.Length)); err != nil {
+					return err
+				}
 			}
 		}
 		return nil
